@@ -19,6 +19,7 @@ pub struct P {
     pub msgs: Seq<Sent>,          // RouterMsgs put on the crossbeam channel, in order
     pub wakeups: nat,             // wake-ups sent on the ipc channel
     pub ack_waited: bool,         // shutdown blocked until the router's acknowledgement arrived
+    pub locked: bool,             // the proxy mutex is held by the running operation
 }
 
 pub struct MsgSender { pub _p: () }        // crossbeam Sender<RouterMsg>
@@ -33,21 +34,23 @@ impl MsgSender {
     // crossbeam unbounded send: the router holds the receiver for as long as it runs
     #[verifier::external_body]
     pub fn send(&self, msg: RouterMsg, Tracked(p): Tracked<&mut P>) -> (r: Result<(), SendError>)
-        ensures r is Ok, final(p).msgs == old(p).msgs.push(sent_of(msg)), final(p).wakeups == old(p).wakeups, final(p).ack_waited == old(p).ack_waited
+        ensures r is Ok, final(p).msgs == old(p).msgs.push(sent_of(msg)), final(p).wakeups == old(p).wakeups, final(p).ack_waited == old(p).ack_waited, final(p).locked == old(p).locked
     { unimplemented!() }
 }
 impl WakeupSender {
     // IpcSender<()>::send(()): assumption - the router thread is alive (it only exits after shutdown / proxy drop)
     #[verifier::external_body]
     pub fn send(&self, v: (), Tracked(p): Tracked<&mut P>) -> (r: Result<(), BincodeError>)
-        ensures r is Ok, final(p).wakeups == old(p).wakeups + 1, final(p).msgs == old(p).msgs, final(p).ack_waited == old(p).ack_waited
+        ensures r is Ok, final(p).wakeups == old(p).wakeups + 1, final(p).msgs == old(p).msgs, final(p).ack_waited == old(p).ack_waited, final(p).locked == old(p).locked
     { unimplemented!() }
 }
 impl AckReceiver {
     #[verifier::external_body]
     pub fn recv(&self, Tracked(p): Tracked<&mut P>) -> (r: Result<(), RecvError>)
         requires old(p).msgs.len() > 0 && old(p).msgs.last() is Shutdown, //@@clause:router.shutdown/requires.ack_awaited_only_after_the_shutdown_message
-        ensures r is Ok, final(p).ack_waited, final(p).msgs == old(p).msgs, final(p).wakeups == old(p).wakeups
+            // waiting WITHOUT the mutex would let a concurrent shutdown()/add_route() see the flag and return before the router has stopped
+            old(p).locked, //@@clause:router.shutdown/requires.mutex_held_while_waiting_for_the_ack
+        ensures r is Ok, final(p).ack_waited, final(p).msgs == old(p).msgs, final(p).wakeups == old(p).wakeups, final(p).locked == old(p).locked
     { unimplemented!() }
 }
 pub mod crossbeam_channel {
@@ -57,4 +60,10 @@ pub mod crossbeam_channel {
 // Result::map(|_| BLOCK).unwrap() is desugared (D18) into `match .. { Ok(_) => BLOCK, Err(e) => unwrap_failed(e) }`
 pub fn unwrap_failed<E>(e: E)
     requires false, //@@clause:router.shutdown/requires.wakeup_send_unwrap
+{ }
+
+// ghost bookkeeping of the mutex (D17): taking the guard / dropping it early
+#[verifier::external_body]
+pub fn ghost_set_locked(v: bool, Tracked(p): Tracked<&mut P>)
+    ensures final(p).locked == v, final(p).msgs == old(p).msgs, final(p).wakeups == old(p).wakeups, final(p).ack_waited == old(p).ack_waited
 { }
